@@ -109,7 +109,7 @@ def run(tier):
             "faults_fired": fault_counts,
             "probes": {k: agg.stats[k] for k in ("dumps_checked", "dir_dumps_checked", "heal_checks", "returns_checked", "stdout_checked",
                                                  "conservation_checked", "relaxed_ops", "blocked_targets", "decode_errors",
-                                                 "cli_subprocess", "dir_members", "inputs_crlf_or_cr", "api_refs", "symlink_inputs", "extra_new_files_in_target")},
+                                                 "cli_subprocess", "dir_members", "inputs_crlf_or_cr", "api_refs", "symlink_inputs", "extra_new_files_in_target", "files_without_dump_request_api")},
             "cells_seen_in_sequences": len(cells),
             "runs_per_hour": int(agg.evals / max(wall_s, 1e-6) * 3600),
             "seeds": {"base": base, "first": base * 1000003, "count_main_group": sum(1 for (g, s) in agg.digests if g == "A")},
